@@ -1,23 +1,755 @@
-//! Module-project generator and reference model (stub, replaced below).
-use crate::scenario::{Concrete, SIM_ROOT};
+//! Generated module projects and the reference model of the module system.
+//!
+//! The model is written from docs/guide.adoc §Imports (not from the implementation):
+//!   * `use p` / `from p use ..`: p is relative to the directory of the importing file;
+//!     a leading `/` makes it relative to the directory of the file being run;
+//!     a trailing `/` imports `exports.sy` of that directory; `/` alone is the root's exports.sy.
+//!   * `use p` binds the last path segment as a namespace, `use p as n` binds `n` (only);
+//!     `from p use x [as y]` binds x (or only y) to p's global x.
+//!   * every file is loaded once; cycles are fine; a name that was not imported is not visible.
 
+use crate::json::J;
+use crate::rng::Rng;
+use crate::scenario::{Concrete, SIM_ROOT};
+use std::collections::{BTreeMap, BTreeSet};
+
+pub const PROJECT_DIR: &str = "/simfs/p";
+
+#[derive(Clone, Debug, PartialEq)]
+pub enum Ty {
+    Int,
+    Float,
+    Str,
+    Bool,
+    /// (defining module, blob name, field type)
+    Blob(usize, String, Box<Ty>),
+}
+
+impl Ty {
+    fn prim(i: usize) -> Ty {
+        match i % 4 {
+            0 => Ty::Int,
+            1 => Ty::Float,
+            2 => Ty::Str,
+            _ => Ty::Bool,
+        }
+    }
+    fn name(&self) -> &'static str {
+        match self {
+            Ty::Int => "int",
+            Ty::Float => "float",
+            Ty::Str => "str",
+            Ty::Bool => "bool",
+            Ty::Blob(..) => "blob",
+        }
+    }
+    fn literal(&self, k: usize) -> String {
+        match self {
+            Ty::Int => format!("{}", 1 + k),
+            Ty::Float => format!("{}.5", k),
+            Ty::Str => format!("\"s{}\"", k),
+            Ty::Bool => (if k % 2 == 0 { "true" } else { "false" }).to_string(),
+            Ty::Blob(..) => unreachable!(),
+        }
+    }
+    fn other_prim(&self) -> Ty {
+        match self {
+            Ty::Int => Ty::Str,
+            Ty::Float => Ty::Bool,
+            Ty::Str => Ty::Int,
+            Ty::Bool => Ty::Float,
+            Ty::Blob(..) => Ty::Int,
+        }
+    }
+}
+
+#[derive(Clone, Debug)]
+pub struct Global {
+    pub name: String,
+    pub ty: Ty,
+    /// full declaration text in the multi-file form
+    pub init: String,
+    /// literal initialiser (None for types and copies)
+    pub lit: Option<String>,
+    /// the (module, global) whose value this global copies, if any
+    pub copies: Option<(usize, String)>,
+    pub is_type: bool,
+}
+
+#[derive(Clone, Debug)]
+pub enum ImportKind {
+    Use { alias: Option<String> },
+    From { items: Vec<(String, Option<String>)>, paren: bool },
+}
+
+#[derive(Clone, Debug)]
+pub struct Import {
+    pub target: usize,
+    /// the path as written after `use` / `from`
+    pub spec: String,
+    pub kind: ImportKind,
+}
+
+impl Import {
+    pub fn line(&self) -> String {
+        match &self.kind {
+            ImportKind::Use { alias: None } => format!("use {}", self.spec),
+            ImportKind::Use { alias: Some(a) } => format!("use {} as {}", self.spec, a),
+            ImportKind::From { items, paren } => {
+                let its: Vec<String> = items
+                    .iter()
+                    .map(|(n, a)| match a {
+                        Some(a) => format!("{} as {}", n, a),
+                        None => n.clone(),
+                    })
+                    .collect();
+                if *paren {
+                    format!("from {} use (\n    {},\n)", self.spec, its.join(",\n    "))
+                } else {
+                    format!("from {} use {}", self.spec, its.join(", "))
+                }
+            }
+        }
+    }
+}
+
+/// A type-annotated read of some module's global from inside a function of `module`.
+#[derive(Clone, Debug)]
+pub struct UseSite {
+    /// how it is written in the multi-file form, e.g. `nb.qva`, `nb.nc.qvb`, `zq1`
+    pub expr: String,
+    /// what it denotes
+    pub target: (usize, String),
+    pub ty: Ty,
+    /// for blob types: how the type is written in the multi-file form (e.g. `nb.Bq1`, `Zt`)
+    pub ty_expr: String,
+}
+
+#[derive(Clone, Debug)]
+pub struct Module {
+    /// path relative to the project directory, e.g. "da/exports.sy"
+    pub rel: String,
+    pub globals: Vec<Global>,
+    pub imports: Vec<Import>,
+    pub uses: Vec<UseSite>,
+    /// extra raw lines placed in the check function (twists)
+    pub raw_body: Vec<String>,
+    /// extra raw top-level lines (twists)
+    pub raw_top: Vec<String>,
+}
+
+impl Module {
+    pub fn dir(&self) -> &str {
+        match self.rel.rfind('/') {
+            Some(i) => &self.rel[..=i],
+            None => "",
+        }
+    }
+    pub fn stem(&self) -> &str {
+        let f = self.rel.rsplit('/').next().unwrap();
+        f.strip_suffix(".sy").unwrap_or(f)
+    }
+}
+
+#[derive(Clone, Debug)]
 pub struct Project {
+    pub modules: Vec<Module>,
+    pub twist: Option<String>,
+    pub removed: Vec<String>,
     pub concrete: Concrete,
+    /// the same globals and use sites in a single file (None when a twist is applied)
+    pub flattened: Option<String>,
+    pub expect_reads: BTreeSet<String>,
+    pub expect_ok: bool,
+    pub features: BTreeSet<&'static str>,
+}
+
+// ------------------------------------------------------------------------------------
+// the model
+
+/// docs/guide.adoc §Imports: importing file (relative to the project dir), path as written → file.
+pub fn model_resolve(importer_rel: &str, spec: &str) -> String {
+    let importer_dir = match importer_rel.rfind('/') {
+        Some(i) => &importer_rel[..=i],
+        None => "",
+    };
+    let (base, rest) = match spec.strip_prefix('/') {
+        Some(r) => ("", r),
+        None => (importer_dir, spec),
+    };
+    if rest.is_empty() {
+        return format!("{}exports.sy", base);
+    }
+    match rest.strip_suffix('/') {
+        Some(d) => format!("{}{}/exports.sy", base, d),
+        None => format!("{}{}.sy", base, rest),
+    }
+}
+
+/// The name a `use` binds when no alias is given: the last path segment.
+pub fn model_implicit_name(spec: &str) -> String {
+    spec.trim_matches('/').rsplit('/').next().unwrap_or("").to_string()
+}
+
+/// Paths the loader must request (each exactly once), given which files exist.
+pub fn model_closure(modules: &[Module], existing: &BTreeSet<String>) -> BTreeSet<String> {
+    let by_rel: BTreeMap<&str, &Module> = modules.iter().map(|m| (m.rel.as_str(), m)).collect();
+    let mut seen = BTreeSet::new();
+    let mut work = vec!["main.sy".to_string()];
+    while let Some(p) = work.pop() {
+        if !seen.insert(p.clone()) {
+            continue;
+        }
+        if !existing.contains(&p) {
+            continue;
+        }
+        if let Some(m) = by_rel.get(p.as_str()) {
+            for i in &m.imports {
+                work.push(model_resolve(&m.rel, &i.spec));
+            }
+        }
+    }
+    seen
+}
+
+#[derive(Default, Clone, Debug)]
+pub struct Bindings {
+    /// namespace name → module
+    pub ns: BTreeMap<String, usize>,
+    /// plain name → (module, global)
+    pub names: BTreeMap<String, (usize, String)>,
+}
+
+/// What is visible in module `f` according to the documentation.
+pub fn model_bindings(modules: &[Module], f: usize) -> Bindings {
+    let mut b = Bindings::default();
+    let m = &modules[f];
+    for g in &m.globals {
+        b.names.insert(g.name.clone(), (f, g.name.clone()));
+    }
+    for i in &m.imports {
+        match &i.kind {
+            ImportKind::Use { alias } => {
+                let n = alias.clone().unwrap_or_else(|| model_implicit_name(&i.spec));
+                b.ns.insert(n, i.target);
+            }
+            ImportKind::From { items, .. } => {
+                for (n, a) in items {
+                    b.names.insert(a.clone().unwrap_or_else(|| n.clone()), (i.target, n.clone()));
+                }
+            }
+        }
+    }
+    b
+}
+
+// ------------------------------------------------------------------------------------
+// the generator
+
+const FILE_NAMES: &[&str] = &["ma", "mb", "mc", "md", "me", "mf"];
+const DIRS: &[&str] = &["", "", "da/", "db/", "da/dc/"];
+const GLOBAL_POOL: &[&str] = &["qva", "qvb", "qvc", "qvd"];
+
+fn render_module(m: &Module, is_main: bool) -> String {
+    let mut s = String::new();
+    for i in &m.imports {
+        s.push_str(&i.line());
+        s.push('\n');
+    }
+    if !m.imports.is_empty() {
+        s.push('\n');
+    }
+    for l in &m.raw_top {
+        s.push_str(l);
+        s.push('\n');
+    }
+    for g in &m.globals {
+        s.push_str(&g.init);
+        s.push('\n');
+    }
+    s.push('\n');
+    s.push_str(if is_main { "start :: fn do\n" } else { "zchk :: fn do\n" });
+    for (k, u) in m.uses.iter().enumerate() {
+        match &u.ty {
+            Ty::Blob(_, _, field) => {
+                s.push_str(&format!("    u{}: {} = {} {{ f: {} }}\n", k, u.ty_expr, u.expr, field.literal(k)));
+                s.push_str(&format!("    w{}: {} = u{}.f\n", k, field.name(), k));
+            }
+            t => s.push_str(&format!("    u{}: {} = {}\n", k, t.name(), u.expr)),
+        }
+    }
+    for l in &m.raw_body {
+        s.push_str(&format!("    {}\n", l));
+    }
+    s.push_str("end\n");
+    s
+}
+
+fn flat_name(modules: &[Module], m: usize, g: &str) -> String {
+    let tag = modules[m].rel.replace('/', "_").replace(".sy", "");
+    let is_type = g.chars().next().map(|c| c.is_ascii_uppercase()).unwrap_or(false);
+    if is_type {
+        format!("T{}x{}", tag, g)
+    } else {
+        format!("g{}x{}", tag, g)
+    }
+}
+
+fn render_flat(modules: &[Module]) -> String {
+    let mut s = String::new();
+    for (mi, m) in modules.iter().enumerate() {
+        for g in &m.globals {
+            let n = flat_name(modules, mi, &g.name);
+            if g.is_type {
+                if let Ty::Blob(_, _, f) = &g.ty {
+                    s.push_str(&format!("{} :: blob {{ f: {} }}\n", n, f.name()));
+                }
+            } else if let Some((cm, cg)) = &g.copies {
+                s.push_str(&format!("{} :: {}\n", n, flat_name(modules, *cm, cg)));
+            } else {
+                s.push_str(&format!("{} :: {}\n", n, g.lit.clone().unwrap_or_default()));
+            }
+        }
+    }
+    s.push_str("\nstart :: fn do\n");
+    let mut k = 0;
+    for m in modules.iter() {
+        for u in &m.uses {
+            let r = flat_name(modules, u.target.0, &u.target.1);
+            match &u.ty {
+                Ty::Blob(_, _, field) => {
+                    s.push_str(&format!("    u{}: {} = {} {{ f: {} }}\n", k, r, r, field.literal(k)));
+                    s.push_str(&format!("    w{}: {} = u{}.f\n", k, field.name(), k));
+                }
+                t => s.push_str(&format!("    u{}: {} = {}\n", k, t.name(), r)),
+            }
+            k += 1;
+        }
+    }
+    s.push_str("end\n");
+    s
+}
+
+/// Every way of writing "import module `t` from module `f`" that the documentation allows.
+fn specs_for(modules: &[Module], f: usize, t: usize) -> Vec<(String, &'static str)> {
+    let fm = &modules[f];
+    let tm = &modules[t];
+    let mut out = Vec::new();
+    let no_ext = tm.rel.strip_suffix(".sy").unwrap().to_string();
+    // root-relative forms are always available
+    out.push((format!("/{}", no_ext), "root"));
+    if tm.stem() == "exports" {
+        if tm.dir().is_empty() {
+            out.push(("/".to_string(), "root-folder"));
+        } else {
+            out.push((format!("/{}", tm.dir()), "root-folder"));
+        }
+    }
+    // relative forms need the target below the importer's directory
+    if let Some(rel) = no_ext.strip_prefix(fm.dir()) {
+        out.push((rel.to_string(), "relative"));
+        if tm.stem() == "exports" {
+            let d = tm.dir().strip_prefix(fm.dir()).unwrap();
+            if !d.is_empty() {
+                out.push((d.to_string(), "relative-folder"));
+            }
+        }
+    }
+    out
+}
+
+pub fn generate(seed: u64) -> Project {
+    let mut r = Rng::sub(seed, "project");
+    let mut features: BTreeSet<&'static str> = BTreeSet::new();
+
+    // ---- modules and their paths
+    let n = r.weighted(&[8, 25, 25, 20, 12, 10]) + 1;
+    let mut modules: Vec<Module> = vec![Module {
+        rel: "main.sy".into(),
+        globals: vec![],
+        imports: vec![],
+        uses: vec![],
+        raw_body: vec![],
+        raw_top: vec![],
+    }];
+    let mut used_paths: BTreeSet<String> = BTreeSet::new();
+    used_paths.insert("main.sy".into());
+    while modules.len() < n {
+        let dir = *r.pick(DIRS);
+        let name = if r.chance(1, 4) { "exports" } else { *r.pick(FILE_NAMES) };
+        let rel = format!("{}{}.sy", dir, name);
+        if used_paths.insert(rel.clone()) {
+            modules.push(Module { rel, globals: vec![], imports: vec![], uses: vec![], raw_body: vec![], raw_top: vec![] });
+        }
+    }
+
+    // ---- globals: small shared name pool, so the same name means different things in different modules
+    for mi in 0..modules.len() {
+        let k = r.range(1, 3);
+        let mut names: Vec<&str> = GLOBAL_POOL.to_vec();
+        r.shuffle(&mut names);
+        for (gi, name) in names.iter().take(k).enumerate() {
+            let idx = GLOBAL_POOL.iter().position(|x| x == name).unwrap();
+            let ty = Ty::prim(idx + mi);
+            let kind = if modules[mi].rel == "main.sy" { "::" } else { *r.pick(&["::", "::", ":="]) };
+            let lit = ty.literal(mi * 3 + gi);
+            let init = format!("{} {} {}", name, kind, lit);
+            modules[mi].globals.push(Global { name: name.to_string(), ty, init, lit: Some(lit), copies: None, is_type: false });
+        }
+        if r.chance(1, 3) {
+            let bname = format!("Bq{}", r.below(2));
+            let fty = Ty::prim(r.below(4));
+            let init = format!("{} :: blob {{\n    f: {},\n}}", bname, fty.name());
+            modules[mi].globals.push(Global {
+                name: bname.clone(),
+                ty: Ty::Blob(mi, bname, Box::new(fty)),
+                init,
+                lit: None,
+                copies: None,
+                is_type: true,
+            });
+            features.insert("blob_type");
+        }
+    }
+
+    // ---- import edges (cycles and diamonds welcome)
+    let mut alias_counter = 0;
+    for f in 0..modules.len() {
+        let max_edges = (modules.len() - 1).min(3);
+        let k = if f == 0 { r.range(max_edges.min(1), max_edges) } else { r.range(0, max_edges) };
+        let mut targets: Vec<usize> = (0..modules.len()).filter(|t| *t != f).collect();
+        r.shuffle(&mut targets);
+        targets.truncate(k);
+        for t in targets {
+            let specs = specs_for(&modules, f, t);
+            let (spec, form) = r.pick(&specs).clone();
+            match form {
+                "root" | "root-folder" => {
+                    if !modules[f].dir().is_empty() {
+                        features.insert("root_import_from_nested");
+                    }
+                    features.insert("root_import");
+                }
+                _ => {}
+            }
+            if form.ends_with("folder") {
+                features.insert("exports_folder");
+            }
+            let b = model_bindings(&modules, f);
+            let taken = |n: &str| b.ns.contains_key(n) || b.names.contains_key(n);
+            let want_from = r.chance(2, 5) && modules[t].globals.iter().any(|_| true);
+            if want_from {
+                let mut gs: Vec<&Global> = modules[t].globals.iter().filter(|g| g.copies.is_none()).collect();
+                r.shuffle(&mut gs);
+                gs.truncate(r.range(1, 2));
+                let mut items = Vec::new();
+                let mut local_taken: BTreeSet<String> = BTreeSet::new();
+                for g in gs {
+                    let need_alias = taken(&g.name) || local_taken.contains(&g.name);
+                    let alias = if need_alias || r.chance(1, 3) {
+                        alias_counter += 1;
+                        features.insert("from_alias");
+                        Some(if g.is_type { format!("Zt{}", alias_counter) } else { format!("zq{}", alias_counter) })
+                    } else {
+                        None
+                    };
+                    local_taken.insert(alias.clone().unwrap_or_else(|| g.name.clone()));
+                    items.push((g.name.clone(), alias));
+                }
+                features.insert("from_import");
+                let paren = r.chance(1, 3);
+                modules[f].imports.push(Import { target: t, spec, kind: ImportKind::From { items, paren } });
+            } else {
+                let implicit = model_implicit_name(&spec);
+                let already_same = b.ns.get(&implicit) == Some(&t);
+                let alias = if spec == "/" || (taken(&implicit) && !already_same) || r.chance(1, 3) {
+                    alias_counter += 1;
+                    features.insert("use_alias");
+                    Some(format!("na{}", alias_counter))
+                } else {
+                    None
+                };
+                modules[f].imports.push(Import { target: t, spec, kind: ImportKind::Use { alias } });
+            }
+        }
+    }
+
+    // ---- initialisers that copy another module's global, along the module order (no dependency cycle)
+    for f in 0..modules.len() {
+        if !r.chance(1, 4) {
+            continue;
+        }
+        let b = model_bindings(&modules, f);
+        let cands: Vec<(String, usize)> = b.ns.iter().filter(|(_, t)| **t > f).map(|(n, t)| (n.clone(), *t)).collect();
+        if cands.is_empty() {
+            continue;
+        }
+        let (ns, t) = r.pick(&cands).clone();
+        let gs: Vec<Global> = modules[t].globals.iter().filter(|g| !g.is_type && g.copies.is_none()).cloned().collect();
+        if gs.is_empty() {
+            continue;
+        }
+        let g = r.pick(&gs).clone();
+        let name = format!("qc{}", f);
+        modules[f].globals.push(Global {
+            name: name.clone(),
+            ty: g.ty.clone(),
+            init: format!("{} :: {}.{}", name, ns, g.name),
+            lit: None,
+            copies: Some((t, g.name.clone())),
+            is_type: false,
+        });
+        features.insert("copy_initialiser");
+    }
+
+    // ---- use sites: every binding is exercised with a type annotation
+    for f in 0..modules.len() {
+        let b = model_bindings(&modules, f);
+        let mut uses = Vec::new();
+        for (ns, t) in &b.ns {
+            let gs = modules[*t].globals.clone();
+            if gs.is_empty() {
+                continue;
+            }
+            let g = r.pick(&gs).clone();
+            if g.is_type {
+                uses.push(UseSite { expr: format!("{}.{}", ns, g.name), target: (*t, g.name.clone()), ty: g.ty.clone(), ty_expr: format!("{}.{}", ns, g.name) });
+            } else {
+                uses.push(UseSite { expr: format!("{}.{}", ns, g.name), target: (*t, g.name.clone()), ty: g.ty.clone(), ty_expr: String::new() });
+            }
+            // chained access through a namespace the target imported itself
+            if r.chance(1, 3) {
+                let b2 = model_bindings(&modules, *t);
+                let chain: Vec<(String, usize)> = b2.ns.iter().map(|(n, t2)| (n.clone(), *t2)).collect();
+                if !chain.is_empty() {
+                    let (ns2, t2) = r.pick(&chain).clone();
+                    let gs2: Vec<Global> = modules[t2].globals.iter().filter(|g| !g.is_type).cloned().collect();
+                    if !gs2.is_empty() {
+                        let g2 = r.pick(&gs2).clone();
+                        uses.push(UseSite {
+                            expr: format!("{}.{}.{}", ns, ns2, g2.name),
+                            target: (t2, g2.name.clone()),
+                            ty: g2.ty.clone(),
+                            ty_expr: String::new(),
+                        });
+                        features.insert("chain_access");
+                    }
+                }
+            }
+        }
+        for (name, (t, g)) in &b.names {
+            let gl = modules[*t].globals.iter().find(|x| x.name == *g).unwrap().clone();
+            uses.push(UseSite { expr: name.clone(), target: (*t, g.clone()), ty: gl.ty.clone(), ty_expr: name.clone() });
+        }
+        r.shuffle(&mut uses);
+        modules[f].uses = uses;
+    }
+
+    // ---- structure probes
+    let existing_all: BTreeSet<String> = modules.iter().map(|m| m.rel.clone()).collect();
+    {
+        let mut indeg: BTreeMap<usize, BTreeSet<usize>> = BTreeMap::new();
+        for (f, m) in modules.iter().enumerate() {
+            for i in &m.imports {
+                indeg.entry(i.target).or_default().insert(f);
+            }
+        }
+        if indeg.values().any(|s| s.len() >= 2) {
+            features.insert("diamond");
+        }
+        // cycle: some module reaches itself
+        for s in 0..modules.len() {
+            let mut seen = BTreeSet::new();
+            let mut work: Vec<usize> = modules[s].imports.iter().map(|i| i.target).collect();
+            while let Some(x) = work.pop() {
+                if x == s {
+                    features.insert("cycle_closed");
+                    break;
+                }
+                if seen.insert(x) {
+                    work.extend(modules[x].imports.iter().map(|i| i.target));
+                }
+            }
+        }
+        if modules.iter().any(|m| m.rel.contains('/')) {
+            features.insert("subfolder");
+        }
+    }
+
+    // ---- optional negative twist
+    let mut twist: Option<String> = None;
+    let mut removed: Vec<String> = Vec::new();
+    let mut tr = Rng::sub(seed, "twist");
+    let closure_before = model_closure(&modules, &existing_all);
+    let loaded: Vec<usize> = (0..modules.len()).filter(|i| closure_before.contains(&modules[*i].rel)).collect();
+    if tr.chance(1, 3) {
+        let mut order: Vec<usize> = (0..8).collect();
+        tr.shuffle(&mut order);
+        'outer: for which in order {
+            let f = *tr.pick(&loaded);
+            let b = model_bindings(&modules, f);
+            match which {
+                0 => {
+                    // bare reference to another loaded module's global that was never imported here
+                    let mut cands = Vec::new();
+                    for &g_mod in &loaded {
+                        if g_mod == f {
+                            continue;
+                        }
+                        for g in &modules[g_mod].globals {
+                            if !b.names.contains_key(&g.name) && !b.ns.contains_key(&g.name) && !g.is_type {
+                                cands.push(g.name.clone());
+                            }
+                        }
+                    }
+                    if let Some(name) = cands.first() {
+                        modules[f].raw_body.push(format!("t0 := {}", name));
+                        twist = Some("bare-reference-without-import".into());
+                        break 'outer;
+                    }
+                }
+                1 => {
+                    // qualified reference through a namespace name that is bound elsewhere but not in this file
+                    let mut cands = Vec::new();
+                    for &o in &loaded {
+                        if o == f {
+                            continue;
+                        }
+                        for (ns, t) in &model_bindings(&modules, o).ns {
+                            if !b.ns.contains_key(ns) && !b.names.contains_key(ns) {
+                                if let Some(g) = modules[*t].globals.iter().find(|g| !g.is_type) {
+                                    cands.push(format!("{}.{}", ns, g.name));
+                                }
+                            }
+                        }
+                    }
+                    if let Some(e) = cands.first() {
+                        modules[f].raw_body.push(format!("t1 := {}", e));
+                        twist = Some("namespace-not-bound-in-this-file".into());
+                        break 'outer;
+                    }
+                }
+                2 => {
+                    // from p use <a name p does not define>
+                    if let Some(i) = modules[f].imports.first().cloned() {
+                        // names the target re-exports through its own from-imports are left alone: the
+                        // documentation does not say whether they can be imported from it
+                        let tb = model_bindings(&modules, i.target);
+                        if let Some(name) = GLOBAL_POOL.iter().find(|n| !tb.names.contains_key(**n) && !tb.ns.contains_key(**n)) {
+                            modules[f].raw_top.push(format!("from {} use {} as zt2", i.spec, name));
+                            twist = Some("from-import-of-undefined-name".into());
+                            break 'outer;
+                        }
+                    }
+                }
+                3 => {
+                    // ns.<name the target does not define>
+                    if let Some((ns, t)) = b.ns.iter().next() {
+                        let defined: BTreeSet<String> = modules[*t].globals.iter().map(|g| g.name.clone()).collect();
+                        if let Some(name) = GLOBAL_POOL.iter().find(|n| !defined.contains(**n)) {
+                            // the target's own from-imports would make the name reachable through its table
+                            let tb = model_bindings(&modules, *t);
+                            if !tb.names.contains_key(*name) && !tb.ns.contains_key(*name) {
+                                modules[f].raw_body.push(format!("t3 := {}.{}", ns, name));
+                                twist = Some("qualified-name-not-in-target".into());
+                                break 'outer;
+                            }
+                        }
+                    }
+                }
+                4 => {
+                    // a reachable file is missing
+                    let cands: Vec<usize> = loaded.iter().copied().filter(|i| *i != 0).collect();
+                    if !cands.is_empty() {
+                        let v = *tr.pick(&cands);
+                        removed.push(modules[v].rel.clone());
+                        twist = Some("reachable-file-missing".into());
+                        break 'outer;
+                    }
+                }
+                5 => {
+                    // a use site annotated with the wrong type: the annotation must bite
+                    if let Some(u) = modules[f].uses.iter().find(|u| !matches!(u.ty, Ty::Blob(..))).cloned() {
+                        modules[f].raw_body.push(format!("t5: {} = {}", u.ty.other_prim().name(), u.expr));
+                        twist = Some("wrong-type-annotation".into());
+                        break 'outer;
+                    }
+                }
+                6 => {
+                    // `use p as n` must not also bind p's implicit name
+                    for i in modules[f].imports.clone().iter() {
+                        if let ImportKind::Use { alias: Some(_) } = &i.kind {
+                            let implicit = model_implicit_name(&i.spec);
+                            if !implicit.is_empty() && !b.ns.contains_key(&implicit) && !b.names.contains_key(&implicit) {
+                                if let Some(g) = modules[i.target].globals.iter().find(|g| !g.is_type).cloned() {
+                                    modules[f].raw_body.push(format!("t6 := {}.{}", implicit, g.name));
+                                    twist = Some("implicit-name-used-despite-alias".into());
+                                    break 'outer;
+                                }
+                            }
+                        }
+                    }
+                }
+                _ => {
+                    // `from p use x as y` must not also bind x
+                    for i in modules[f].imports.clone().iter() {
+                        if let ImportKind::From { items, .. } = &i.kind {
+                            for (n, a) in items {
+                                if a.is_some() && !b.names.contains_key(n) && !b.ns.contains_key(n) && !n.starts_with('B') {
+                                    modules[f].raw_body.push(format!("t7 := {}", n));
+                                    twist = Some("original-name-used-despite-alias".into());
+                                    break 'outer;
+                                }
+                            }
+                        }
+                    }
+                }
+            }
+        }
+    }
+
+    // ---- realise
+    let mut concrete = Concrete::new(&format!("{}/main.sy", PROJECT_DIR));
+    for (i, m) in modules.iter().enumerate() {
+        if removed.contains(&m.rel) {
+            continue;
+        }
+        concrete.files.insert(format!("{}/{}", PROJECT_DIR, m.rel), render_module(m, i == 0));
+    }
+    // a decoy file that nothing imports: it must never be read
+    if r.chance(1, 2) {
+        concrete.files.insert(format!("{}/unused_decoy.sy", PROJECT_DIR), "this file is not valid sylt ((((\n".into());
+        features.insert("decoy_file");
+    }
+    let existing: BTreeSet<String> = modules.iter().filter(|m| !removed.contains(&m.rel)).map(|m| m.rel.clone()).collect();
+    let expect_reads: BTreeSet<String> = model_closure(&modules, &existing).into_iter().map(|p| format!("{}/{}", PROJECT_DIR, p)).collect();
+    let flattened = if twist.is_none() { Some(render_flat(&modules)) } else { None };
+    if let Some(t) = &twist {
+        let _ = t;
+        features.insert("twist");
+    }
+    debug_assert!(SIM_ROOT == "/simfs");
+    Project { modules, expect_ok: twist.is_none(), twist, removed, concrete, flattened, expect_reads, features }
 }
 
 impl Project {
-    pub fn extra_json(&self) -> crate::json::J {
-        crate::json::J::obj()
-    }
     pub fn describe(&self) -> String {
-        "stub".into()
+        format!(
+            "{} modules, twist={:?}, features={:?}",
+            self.modules.len(),
+            self.twist,
+            self.features.iter().collect::<Vec<_>>()
+        )
     }
-}
 
-pub fn generate(_seed: u64) -> Project {
-    let main = format!("{}/p/main.sy", SIM_ROOT);
-    let mut c = Concrete::new(&main);
-    c.files.insert(main, "use b\nstart :: fn do\n    x: int = b.v\nend\n".into());
-    c.files.insert(format!("{}/p/b.sy", SIM_ROOT), "v :: 1\n".into());
-    Project { concrete: c }
+    /// Everything replay needs to re-evaluate the oracle without regenerating.
+    pub fn extra_json(&self) -> J {
+        J::obj()
+            .set("expect_ok", J::Bool(self.expect_ok))
+            .set("twist", self.twist.as_ref().map(|t| J::s(t)).unwrap_or(J::Null))
+            .set("expect_reads", crate::json::arr_str(self.expect_reads.iter()))
+            .set("removed", crate::json::arr_str(self.removed.iter().map(|r| format!("{}/{}", PROJECT_DIR, r))))
+            .set("flattened", self.flattened.as_ref().map(|t| J::s(t)).unwrap_or(J::Null))
+            .set("features", crate::json::arr_str(self.features.iter()))
+    }
 }
